@@ -13,7 +13,7 @@ EPS = np.finfo(float).eps
 GMAX_LOG = 13.8  # G <= 1e6
 REL_FLOOR = 1e-12
 K_GROWTH = 4096.0  # calibrated: thorough runs (25k cases per property) show residuals up to ~450*eps*G; mutants are >= 1e-4
-SINGLE_REL = 1e-4  # a result that went through complex64 storage is involved
+SINGLE_REL = 1e-5  # a result that went through complex64 storage is involved (the figure C12 states; calibrated: reciprocity residual in single precision <= 2.5e-7 of the scale over 2637 cases with growth up to e^13.8)
 
 
 def max_wavenumbers(nx, ny, dx, dy, px=0, py=0, modes=None):
